@@ -14,12 +14,12 @@ RULE = ("split: generated die (lattice, blockages / specialised regions / fixed 
         "region, aspect-ratio limit r in [1.42, 6] (half of the mass in [1.42, 2)), count n in 1..60; oracle on the float results "
         "taken as exact reals: count >= n, every new region inside exactly one former refinable region with the same tag, children "
         "of one former region disjoint with areas summing to it, every ratio <= r, blockages and fixed regions the same objects "
-        "with unchanged geometry. grid: empty die, rows x cols in 1..8 x 1..8 (1x1 excluded: refused by the code). "
+        "with unchanged geometry. grid: empty die, rows x cols in 1..8 x 1..8 (1 x 1, the grid of one cell, included). "
         "non-trivial = the call split at least one region; distinct = distinct case.")
 ASSUMPTIONS = [
     "dies without any refinable region are outside the domain (no count can be reached)",
     "relative tolerance 1e-9 on containment and area sums, 1e-12 on the ratio bound",
-    "initial_grid(1, 1) is refused by an explicit assertion and is not part of 'all grid shapes'",
+    "initial_grid(1, 1) is a grid shape like any other: the code accepts it (rows + cols > 1) and leaves the single region",
 ]
 _i = st.integers
 # (tiny and huge units: the refinement must not depend on the absolute scale of the die)
@@ -150,7 +150,7 @@ def run_grid(c):
             raise Violation("%s: cell %s is not %s x %s" % (what, x, float(W / cols), float(H / rows)), "cell-size")
     if fixed or die.blockages:
         raise Violation("%s: fixed regions or blockages appeared" % what, "blockage-or-fixed-touched")
-    return dict(nt=True, cls=["rows!=cols"] if rows != cols else ["square-grid"])
+    return dict(nt=True, cls=["rows!=cols"] if rows != cols else ["square-grid"] + (["grid-of-one-cell"] if rows == 1 else []))
 
 
 @st.composite
@@ -179,8 +179,8 @@ def split_s(draw):
 def grid_s(draw):
     c = draw(D.die_case(max_regions=0, allow_fixed=False))
     rows, cols = draw(_i(1, 8)), draw(_i(1, 8))
-    if rows == 1 and cols == 1:
-        cols = 2
+    if draw(_i(0, 9)) == 0:
+        rows = cols = 1
     c.update(rows=rows, cols=cols, form=draw(st.sampled_from(["wxh", "tree"])))
     return c
 
@@ -189,5 +189,5 @@ def subchecks():
     return [
         Sub("split", run_split, strategy=split_s(), n_quick=12000, n_thorough=300000, fuzz_thorough=6000,
             required=("r<2", "specialised", "split", "count-driven-with-r<2", "tiny-die", "after-a-refused-request", "region-needing-7+-halvings")),
-        Sub("grid", run_grid, strategy=grid_s(), n_quick=3000, n_thorough=60000, fuzz_thorough=1500, required=("rows!=cols", "square-grid")),
+        Sub("grid", run_grid, strategy=grid_s(), n_quick=3000, n_thorough=60000, fuzz_thorough=1500, required=("rows!=cols", "square-grid", "grid-of-one-cell")),
     ]
